@@ -9,7 +9,14 @@ V: IFORMContour and ISORMContour are computed on the real model, every point is 
    the driver's own loop with model.distributions[i].cdf and the declared structure, and
    spec/Trace_C01.tla judges RadiusIsBeta, BetaIsRef, Count, DirectionsDistinct,
    AnglesEquallySpaced, MaxIsMarginalQuantile and ProbeColumn.
+H: histories (spec/RosenblattHist.tla: contour -> Modify(i) of any non-empty set of dimensions -> the same
+   request again; TLC checks InverseRosenblattNow, the deviation "stalememo" must violate it, and enumerates the
+   histories).  The driver performs each on ONE real model object with direct writes to inner objects
+   (dep.parameters[k] = v | dep.parameters = {...} | dep.fit(x, y) | dist.<parameter> = v) and judges the
+   radius of the SECOND contour twice: through the object's own cdfs with array-valued given, and through
+   a freshly constructed model with the current parameters (no call has ever been made on it).
 """
+import copy
 import math
 import warnings
 from statistics import NormalDist
@@ -75,11 +82,12 @@ def phi_inv(p):
 def case_key(c, method):
     if method == "reject":
         return f"constructor conditional_on={c['cond']}"
-    if c.get("how") == "refit":
+    if c.get("how") in ("refit", "seastate-item", "seastate-depfit"):
         return f"{method} named=seastate-weibull-lognormal alpha={c['alpha']} n_points={c['n_points']} seed={c['seed']}"
     return (f"{method} n_dim={c['n_dim']} cond={c['cond']} families={','.join(c['families'])} "
             f"shapes={c['sh']} alpha={c['alpha']}" + (f" alpha_type={c['alpha_type']}" if c.get("alpha_type") else "")
-            + f" n_points={c['n_points']} seed={c['seed']}")
+            + f" n_points={c['n_points']} seed={c['seed']}"
+            + (f" modified={c['mods']} writes={','.join(c['writes'])}" if c.get("how") == "inner-write" else ""))
 
 
 def map_back(model, cond, x):
@@ -94,12 +102,14 @@ def map_back(model, cond, x):
     return u
 
 
-def contour_record(vc, model, c, method):
+def contour_record(vc, model, c, method, fresh=None):
+    """fresh: a model constructed from the CURRENT parameters of `model` on which nothing has been evaluated
+    yet; the contour of `model` is then mapped back a second time through the cdfs of that object"""
     cls = vc.IFORMContour if method == "iform" else vc.ISORMContour
     n_dim, npnt, alpha = c["n_dim"], c["n_points"], c["alpha"]
     rec = dict(kind="contour", method=method, ndim=n_dim, npoints=npnt, finite=True, shapeok=True,
                beta=0, betaref=Q(beta_ref(method, alpha, n_dim), 1e7), r=[], dirs=[], ang=[], argmax=1,
-               umax=0, exc="")
+               umax=0, exc="", fresh=fresh is not None, rfresh=[])
     with warnings.catch_warnings():
         warnings.simplefilter("ignore")
         try:
@@ -116,9 +126,12 @@ def contour_record(vc, model, c, method):
             rec["finite"] = False
             return rec, cont
         u = map_back(model, c["cond"], x)
+        uf = map_back(fresh, c["cond"], x) if fresh is not None else None
     rec["beta"] = Q(cont.beta, 1e7)
     r = np.sqrt(np.sum(u * u, axis=1))
     rec["r"] = [Qc(v, 1e7, -BIG, BIG) for v in r]
+    if uf is not None:
+        rec["rfresh"] = [Qc(v, 1e7, -BIG, BIG) for v in np.sqrt(np.sum(uf * uf, axis=1))]
     dirs = []
     for k in range(len(r)):
         if math.isfinite(r[k]) and r[k] > 1e-12:
@@ -240,26 +253,126 @@ def reject_record(c):
     return dict(kind="reject", accepted=accepted, exc=exc, cond=[-1 if k is None else k for k in c["cond"]])
 
 
-def _contours(vc, model, c, desc, tag=""):
+def _contours(vc, model, c, desc, tag="", fresh=None):
     out = []
     for method in c.get("methods", ("iform", "isorm")):
-        rec, cont = contour_record(vc, model, c, method)
+        rec, cont = contour_record(vc, model, c, method, fresh=fresh)
         out.append((rec, method + tag, {"nontrivial": M.nontrivial_dependence(desc) if desc else True,
                                         "colsens": bool(desc) and M.column_sensitive(desc)}, cont))
     return out
 
 
+WRITE_STYLES = ("item", "dict", "depfit")
+
+
+def marginal_edit(fam, params):
+    """the parameter values an unconditional dimension gets in a history (admissible, quantiles move)"""
+    p = dict(params)
+    if fam in ("weibull", "expweibull"):
+        p["alpha"] = p["alpha"] * 1.6
+    elif fam in ("lognormal", "normal"):
+        p["mu"] = p["mu"] + 0.47
+    elif fam == "gengamma":
+        p["lambda_"] = p["lambda_"] / 1.6
+    elif fam == "lognormfit":
+        p["mu_norm"], p["sigma_norm"] = p["mu_norm"] * 1.6, p["sigma_norm"] * 1.6
+    elif fam == "vonmises":
+        p["kappa"] = p["kappa"] * 1.6
+    return p
+
+
+def inner_write(model, now, i, style):
+    """Modify(i) of RosenblattHist.tla on the real objects: dimension i of `model` is changed by writing to an
+    INNER object directly (never through model.fit); `now` (the harness' own description) is updated with the same
+    numbers, so that a fresh model with the current parameters can be built.  Returns the style performed.
+      unconditional dimension: dist.<parameter> = v
+      conditional dimension, every dependence function, offset coefficient x 1.25 (admissible by construction):
+        "item"   dep.parameters[name] = v          (the dict the function reads is written in place)
+        "dict"   dep.parameters = {...}            (a new dict is assigned)
+        "depfit" dep.fit(x, y) on the DependenceFunction itself, y exactly on the target curve; the
+                 parameters the fit left in dep.parameters ARE the current state and are read back"""
+    d = now["dims"][i]
+    obj = model.distributions[i]
+    if now["cond"][i] is None:
+        new = marginal_edit(d["family"], d["params"])
+        for p, v in new.items():
+            if v != d["params"][p]:
+                setattr(obj, p, v)
+        d["params"] = new
+        return "attribute"
+    done = style
+    for p, (kind, co) in list(d["deps"].items()):
+        dep = obj.conditional_parameters[p]
+        target = [float(co[0]) * 1.25] + [float(v) for v in co[1:]]
+        k0 = next(iter(dep.parameters))
+        if style == "item":
+            dep.parameters[k0] = target[0]
+        elif style == "dict":
+            pars = dict(dep.parameters)
+            pars[k0] = target[0]
+            dep.parameters = pars
+        else:
+            xs = np.linspace(0.25, 6.0, 24)
+            dep.fit(xs, M.FUNCS[kind](xs, *target))
+            got = [float(v) for v in dep.parameters.values()]
+            if len(got) == len(target) and all(abs(g - t) <= 1e-5 * (1 + abs(t)) for g, t in zip(got, target)):
+                target = got
+            else:
+                # the least-squares fit stopped somewhere else (C14's business, possibly inadmissible here):
+                # the history goes on with the target written over the fit result - still a direct write
+                dep.parameters = dict(zip(dep.parameters.keys(), target))
+                done = "depfit+dict"
+        d["deps"][p] = [kind, target]
+    return done
+
+
+def _moved(model, c, r1, c1):
+    """non-trivial history: the contour of the old parameters is off the beta-sphere of the new ones"""
+    if c1 is None or not r1["finite"]:
+        return False
+    with warnings.catch_warnings():
+        warnings.simplefilter("ignore")
+        u = map_back(model, c["cond"], np.asarray(c1.coordinates, dtype=float))
+    rr = np.sqrt(np.sum(u * u, axis=1))
+    return bool(np.max(np.abs(rr - r1["betaref"] / 1e7)) > 1e-3)
+
+
+def same_column(c):
+    """a modified conditional dimension none of whose ancestors was modified: the second contour evaluates it
+    at the conditioning values of the first"""
+    for i in c["mods"]:
+        k = c["cond"][i]
+        if k is None:
+            continue
+        while k is not None and k not in c["mods"]:
+            k = c["cond"][k]
+        if k is None:
+            return True
+    return False
+
+
+def _seastate_with(vc, mu_par, sigma_par):
+    m = M.seastate_model(vc)
+    cp = m.distributions[1].conditional_parameters
+    cp["mu"].parameters = dict(zip(cp["mu"].parameters.keys(), mu_par))
+    cp["sigma"].parameters = dict(zip(cp["sigma"].parameters.keys(), sigma_par))
+    return m
+
+
 def history_case(vc, c):
-    """contour -> change the SAME model object in place (assign parameters | re-fit) -> the same
+    """contour -> change the SAME model object (assign parameters | re-fit | write to inner objects) -> the same
     contour request again; the second contour is judged against the CURRENT model"""
-    if c["how"] == "refit":
+    fresh = None
+    how = c["how"]
+    if how in ("refit", "seastate-item", "seastate-depfit"):
         truth = M.seastate_model(vc)
         data_a = truth.draw_sample(5000, random_state=c["seed"])
         data_b = truth.draw_sample(5000, random_state=c["seed"] + 1) * np.array([0.5, 1.6])
         model = M.seastate_model(vc)
-        with warnings.catch_warnings():
-            warnings.simplefilter("ignore")
-            model.fit(data_a)
+        if how == "refit":
+            with warnings.catch_warnings():
+                warnings.simplefilter("ignore")
+                model.fit(data_a)
         desc = None
     else:
         desc = M.describe(np.random.default_rng(c["seed"]), c["n_dim"], c["cond"], c["families"], c["sh"])
@@ -267,23 +380,33 @@ def history_case(vc, c):
     first = _contours(vc, model, c, desc, "-history-first")
     with warnings.catch_warnings():
         warnings.simplefilter("ignore")
-        if c["how"] == "refit":
+        if how == "refit":
             model.fit(data_b)
+        elif how in ("seastate-item", "seastate-depfit"):
+            # the first variable keeps its marginal; only the dependence function of mu is touched
+            cp = model.distributions[1].conditional_parameters
+            mu_new = [0.6, 1.489, 0.1901]
+            if how == "seastate-item":
+                cp["mu"].parameters["a"] = mu_new[0]
+            else:
+                xs = np.linspace(0.5, 8.0, 16)
+                cp["mu"].fit(xs, M._ss_p3(xs, *mu_new))
+                mu_new = [float(v) for v in cp["mu"].parameters.values()]
+            fresh = _seastate_with(vc, mu_new, [float(v) for v in cp["sigma"].parameters.values()])
+        elif how == "inner-write":
+            now = copy.deepcopy(desc)
+            for i, style in zip(c["mods"], c["writes"]):
+                inner_write(model, now, i, style)
+            fresh = M.from_description(vc, now)
         else:
             M.change_parameters(model)
-    second = _contours(vc, model, c, desc, "-history-after-" + c["how"])
+            fresh = M.from_description(vc, M.change_description(desc))
+    second = _contours(vc, model, c, desc, "-history-after-" + how, fresh=fresh)
     out = []
+    samecol = how.startswith("seastate") or (how == "inner-write" and same_column(c))
     for (r1, m1, i1, c1), (r2, m2, i2, c2) in zip(first, second):
         out.append((r1, m1, i1))
-        # non-trivial: the contour of the old parameters is off the beta-sphere of the new ones
-        moved = False
-        if c1 is not None and r1["finite"]:
-            with warnings.catch_warnings():
-                warnings.simplefilter("ignore")
-                u = map_back(model, c["cond"], np.asarray(c1.coordinates, dtype=float))
-            rr = np.sqrt(np.sum(u * u, axis=1))
-            moved = bool(np.max(np.abs(rr - r1["betaref"] / 1e7)) > 1e-3)
-        out.append((r2, m2, dict(i2, nontrivial=moved, history=True)))
+        out.append((r2, m2, dict(i2, nontrivial=_moved(model, c, r1, c1), history=True, samecol=samecol)))
     return out
 
 
@@ -311,7 +434,7 @@ def run_case(c):
 
 # ---- case selection ------------------------------------------------------------------------
 
-def make_cases(ctx, cfgs):
+def make_cases(ctx, cfgs, hists=()):
     rng = np.random.default_rng(ctx.seed + 1)
     by_n = {n: [c for c in cfgs if c["n_dim"] == n] for n in (2, 3, 4)}
     cases = []
@@ -407,7 +530,45 @@ def make_cases(ctx, cfgs):
     for k in range(ctx.pick(1, 4)):
         cases.append(dict(kind="history", how="refit", n_dim=2, cond=[None, 0], sh=[0, 4], families=["weibull", "lognormal"],
                           alpha=[1e-2, 1e-4, 0.1, 1e-6][k], n_points=[30, 7, 180, 30][k], seed=ctx.seed + 31 + k))
+    # histories that write to INNER objects (TLC: RosenblattHist, every non-empty set of modified dimensions):
+    # 2-D all, 3-D a seeded subset (quick; half of it with an unchanged conditioning column) / all (thorough)
+    h2 = [h for h in hists if h["n_dim"] == 2]
+    h3 = [h for h in hists if h["n_dim"] == 3]
+    if ctx.quick:
+        same = [h for h in h3 if same_column(h)]
+        rest = [h for h in h3 if not same_column(h)]
+        h3 = [same[int(q)] for q in sorted(rng.choice(len(same), size=min(14, len(same)), replace=False))] + \
+             [rest[int(q)] for q in sorted(rng.choice(len(rest), size=min(10, len(rest)), replace=False))]
+    for k, h in enumerate(h2 + h3):
+        j += 1
+        kk = k + ctx.seed
+        add(h, [1e-2, 0.1, 1e-4, 1e-6][kk % 4], ([30, 7, 60] if h["n_dim"] == 2 else [7, 30])[kk % (5 - h["n_dim"])])
+        cases[-1].update(kind="history", how="inner-write", mods=list(h["mods"]),
+                         writes=[WRITE_STYLES[(kk + i) % 3] if h["cond"][i] is not None else "attribute"
+                                 for i in h["mods"]])
+    for k in range(ctx.pick(2, 8)):
+        cases.append(dict(kind="history", how=["seastate-item", "seastate-depfit"][k % 2], n_dim=2, cond=[None, 0],
+                          sh=[0, 4], families=["weibull", "lognormal"], alpha=[1e-3, 1e-2, 1e-4, 0.1][k // 2],
+                          n_points=[24, 30, 7, 180][k // 2], seed=ctx.seed + 41 + k))
     return cases
+
+
+def tlc_histories(ctx):
+    """Leg R for histories: every (n, cond, shape classes at construction, set of modified dimensions) TLC
+    reaches in spec/RosenblattHist.tla; shape classes of unconditional dimensions carry no information for the
+    concretisation and are dropped (duplicates removed).  Dimensions 0-based."""
+    seen, out = set(), []
+    for h in ctx.generate("RosenblattHist", "Gen_RosenblattHist.cfg"):
+        cond = [None if k == 0 else k - 1 for k in h["cond"]]
+        sh = [0 if cond[i] is None else int(v) for i, v in enumerate(h["sh"])]
+        mods = sorted(int(m) - 1 for m in h["mods"])
+        key = (h["n"], tuple(-1 if k is None else k for k in cond), tuple(sh), tuple(mods))
+        if key in seen:
+            continue
+        seen.add(key)
+        out.append({"n_dim": h["n"], "cond": cond, "sh": sh, "mods": mods})
+    out.sort(key=lambda h: (h["n_dim"], [-1 if k is None else k for k in h["cond"]], h["sh"], h["mods"]))
+    return out
 
 
 # ---- judge ---------------------------------------------------------------------------------
@@ -430,6 +591,7 @@ def judge(ctx, cases, label, workers):
         for clause in failing.get(rec["id"], []):
             detail = (f"exc={rec.get('exc')}" if rec.get("exc") else
                       f"beta={rec.get('beta')} betaref={rec.get('betaref')} r[:4]={rec.get('r', [])[:4]} "
+                      + (f"rfresh[:4]={rec['rfresh'][:4]} " if rec.get("fresh") else "") +
                       f"ang[:4]={rec.get('ang', [])[:4]} entries[:2]={rec.get('entries', [])[:2]}")
             ctx.violation(clause, key, detail, replay=c)
     ctx.log(f"{label}: {len(cases)} models, {len(recs)} records judged, "
@@ -452,16 +614,26 @@ def selftest(ctx, good):
     muts["InadmissibleStructureRejected"] = dict(kind="reject", accepted=True, exc="", cond=[-1, 1])
     muts["ProbeColumn"] = dict(kind="probe", method="selftest",
                                entries=[dict(shift=1000, cands=[1000, 5000], decl=2, dim=2, point=0)])
+    muts = [(cl, r) for cl, r in muts.items()]
+    # the radius through the fresh model: one point off / the second map missing although announced
+    g = copy.deepcopy(good); g["fresh"] = True; g["rfresh"] = list(g["r"]); g["rfresh"][-1] += 100000
+    muts.append(("RadiusIsBeta", g))
+    g = copy.deepcopy(good); g["fresh"] = True; g["rfresh"] = []
+    muts.append(("RadiusIsBeta", g))
     recs = []
-    for i, (cl, r) in enumerate(muts.items()):
+    for i, (cl, r) in enumerate(muts):
         r["id"] = i + 1
         recs.append(r)
     t = ctx.traces
     failing = ctx.validate("Trace_C01", "Trace_C01.cfg", recs)
     ctx.traces = t
-    for cl, r in muts.items():
+    for cl, r in muts:
         if cl not in failing.get(r["id"], []):
             raise Machinery(f"selftest: corrupted record was not rejected by clause {cl}: {failing.get(r['id'])}")
+    ok = copy.deepcopy(good); ok["fresh"] = True; ok["rfresh"] = list(ok["r"]); ok["id"] = 1
+    if ctx.validate("Trace_C01", "Trace_C01.cfg", [ok]):
+        raise Machinery("selftest: an accepted record with the same radii through the fresh model was rejected")
+    ctx.traces = t
     ctx.log(f"selftest: {len(muts)} corrupted records rejected by their clauses")
 
 
@@ -474,13 +646,22 @@ def run(ctx):
                 "{0.5,0.1,1e-2,1e-4,1e-6,1e-8} (thorough also log-uniform), n_points from {3,7,30,180|60}; both "
                 "IFORM and ISORM; alpha also passed as numpy float32 / float64 (1e-8 .. 0.1); exponentiated Weibull with delta in [0.3,0.8] (marginal and conditional) at alpha "
                 "1e-6/1e-8; histories on one model object: contour, change in place (assign parameters | re-fit to "
-                "other data), the same (class, alpha, n_points) request again, judged against the current model. distinct = distinct (method, structure, families, shapes, alpha, n_points, seed); "
+                "other data), the same (class, alpha, n_points) request again, judged against the current model; histories that "
+                "write to INNER objects, enumerated by TLC from spec/RosenblattHist.tla (every structure x shape classes "
+                "x non-empty set of modified dimensions, first dimension in it or not: all 12 for 2-D, 24 of 196 "
+                "quick / all thorough for 3-D): dep.parameters[name] = v | dep.parameters = {...} | dep.fit(x, y) on the "
+                "dependence function itself | dist.<parameter> = v on an unconditional dimension, plus the named sea-state "
+                "model with mu's dependence function written / re-fitted directly; the second contour's radii are taken "
+                "through the object's own cdfs (array-valued given) AND through a freshly constructed model with the "
+                "current parameters. distinct = distinct (method, structure, families, shapes, alpha, n_points, seed); "
                 "non-trivial = at least one conditional dimension whose parameters vary with the given (probe "
                 "records: at least one point where another column would give a different shift)")
     ctx.trusted = ["TLC evaluating spec/Trace_C01.tla", "statistics.NormalDist (Phi, Phi^-1)",
                    "closed-form chi-square survival functions for n=2,3,4 + bisection (math only)",
                    "the model's own distributions[i].cdf as the map back (as the property states)",
-                   "harness/models.py dependence callables (probe shifts)"]
+                   "harness/models.py dependence callables (probe shifts; target curve of the direct dep.fit)",
+                   "a model constructed afresh from the harness' own record of the written parameters (dep.fit: "
+                   "read back from dep.parameters) has the cdfs of the modified model"]
     ctx.assumptions = ["dependence functions are vectorised and keep parameters admissible for every real given",
                        "n_points <= 60 for n_dim >= 3 (NSphere is O(n^2))",
                        "alpha = 0.5 (beta = 0): only radius and count are judged, directions are undefined"]
@@ -488,8 +669,12 @@ def run(ctx):
                     must_cover=("IcdfStep",))
     ctx.model_check("Rosenblatt", "MC_Rosenblatt_c01_wrongcol.cfg", expect_violation="InverseRosenblatt")
     ctx.model_check("Rosenblatt", "MC_Rosenblatt_c01_inadm.cfg", expect_violation="ReadsOnlyComputed")
+    ctx.model_check("RosenblattHist", ctx.pick("MC_RosenblattHist_quick.cfg", "MC_RosenblattHist_thorough.cfg"),
+                    must_cover=("IcdfStep", "Modify", "StartSecond"))
+    ctx.model_check("RosenblattHist", "MC_RosenblattHist_stalememo.cfg", expect_violation="InverseRosenblattNow")
     cfgs = M.tlc_configs(ctx)
-    cases = make_cases(ctx, cfgs)
+    hists = tlc_histories(ctx)
+    cases = make_cases(ctx, cfgs, hists)
     # the structures ReadsOnlyComputed excludes (TLC, Admissible = FALSE) must not be constructible
     bad = M.tlc_configs(ctx, "Gen_Rosenblatt_inadm.cfg")
     for k, cfg in enumerate(bad):
@@ -503,6 +688,17 @@ def run(ctx):
     ctx.notes["contours_expweibull_low_delta"] = newlow
     if not ctx.violations and (nhist < 4 or newlow < 8):
         raise Machinery(f"vacuous: {nhist} history contours / {newlow} low-delta exponentiated Weibull contours")
+    # second contours (a) judged through a fresh model as well, (b) of a model whose modified dimension is evaluated
+    # at the conditioning values of the first contour (where anything kept per conditioning value would be served)
+    nfresh = sum(1 for r, (_, _, info) in zip(recs, meta) if info.get("history") and r.get("fresh") and r["rfresh"])
+    nsame = {mth: sum(1 for (_, m, info) in meta if info.get("samecol") and info.get("nontrivial")
+                      and m.startswith(mth)) for mth in ("iform", "isorm")}
+    ctx.notes["history_contours_also_mapped_back_through_a_fresh_model"] = nfresh
+    ctx.notes["history_contours_moved_with_unchanged_conditioning_column"] = nsame
+    ctx.notes["tlc_histories"] = len(hists)
+    if not ctx.violations and (nfresh < 20 or min(nsame.values()) < 6):
+        raise Machinery(f"vacuous: {nfresh} history contours judged through a fresh model / {nsame} moved with an "
+                        f"unchanged conditioning column")
     colsens = sum(1 for (_, _, info) in meta if info.get("colsens"))
     ctx.notes["contours_sensitive_to_the_conditioning_column"] = colsens
     if not ctx.violations and (nident == 0 or colsens < 20):
